@@ -505,6 +505,42 @@ func (c *Ctx) timeoutListInvariant(rRemoval, rEncoding, rAccum string) {
 		}
 	}
 	r.Floor("R06.9", "loop-carried list accumulators", nFold, 1)
+
+	// R06.10 expiry sees the maintained list
+	r.Rule("R06.10", "expiry sees the maintained list: in processExecuteEvent everything that reads the timeout list of the current height for expiry (getTimeoutIBTPsMap, setTimeoutRollback) is preceded on every path by setTimeoutList of the same block, so a receipt accepted in the very block in which its request expires is removed first; inside setTimeoutList no addition write-back (writeToStr side) is reachable after a removal write-back (removeFromStr side), so a request and its receipt accepted in one block cancel out.")
+	pe10 := c.fn("R06.10", "internal/executor.(*BlockExecutor).processExecuteEvent")
+	stl10 := c.fn("R06.10", "internal/executor.(*BlockExecutor).setTimeoutList")
+	str10 := c.fn("R06.10", "internal/executor.(*BlockExecutor).setTimeoutRollback")
+	gtm10 := c.fn("R06.10", "internal/executor.(*BlockExecutor).getTimeoutIBTPsMap")
+	if pe10 != nil && stl10 != nil && str10 != nil && gtm10 != nil {
+		n := c.mustPrecede("R06.10", "processExecuteEvent", pe10, c.callReaching(stl10), func(in ssa.Instruction) bool {
+			call, ok := in.(ssa.CallInstruction)
+			if !ok {
+				return false
+			}
+			g := core.StaticCallee(call)
+			return g == str10 || g == gtm10
+		}, "setTimeoutList (this block's receipts removed, requests added)", "expiry of the current height")
+		r.Floor("R06.10", "expiry reads in processExecuteEvent", n, 2)
+	}
+	wts := c.fn("R06.10", "internal/executor.(*BlockExecutor).writeToStr")
+	rfs := c.fn("R06.10", "internal/executor.(*BlockExecutor).removeFromStr")
+	if stl10 != nil && wts != nil && rfs != nil {
+		isAdd, isRem := c.callReaching(wts), c.callReaching(rfs)
+		adds, rems := sites(stl10, isAdd), sites(stl10, isRem)
+		r.Floor("R06.10", "write-back sites of setTimeoutList", len(adds)+len(rems), 2)
+		bad := ""
+		for _, rm := range rems {
+			after := core.Reach([]core.Point{core.After(rm)}, nil, nil)
+			for _, ad := range adds {
+				if ad != rm && after.Has(ad) && !isRem(ad) {
+					bad = c.P.Pos(ad.Pos()) + " after " + c.P.Pos(rm.Pos())
+				}
+			}
+		}
+		r.Check(bad == "", "R06.10", "setTimeoutList: additions are written back before removals", c.P.Pos(stl10.Pos()), fmt.Sprintf("%d addition and %d removal write-back site(s); no addition is reachable after a removal", len(adds), len(rems)),
+			"an addition write-back is reachable after a removal write-back ("+bad+"): the id of a request whose receipt is accepted in the same block is removed from a list that does not hold it yet and then added - it stays listed and the finished transaction is rolled back at its timeout height")
+	}
 }
 
 // timeoutListIdentity: R06.8 (contract side): add/remove of a timeout-list entry name the group record's id and height.
